@@ -231,7 +231,7 @@ func c18HistConfigs(env *mc.Env) []*c18HistCfg {
 		{"hist-k1", base, 1, 1, false, true, 0, plain, false, 2, 3},
 		{"hist-k2n1", base, 2, 1, false, false, 0, plain, false, 5, 8},
 		{"hist-k2n1-evictfail", base, 2, 1, true, false, 0, plain, false, 5, 8},
-		{"hist-k2n1-prod", withProd, 2, 1, false, true, 0, prod, false, 5, 8},
+		{"hist-k2n1-prod", withProd, 2, 1, false, true, 0, prod, false, 4, 8},
 		{"hist-k3n3", base, 3, 3, false, true, 0, plain, false, 5, 8},
 		{"hist-k2n3-numnodes1", base, 2, 3, false, false, 1, plain, true, 5, 8},
 		{"hist-k3n1-prod-evictfail", withProd, 3, 1, true, false, 0, prod, true, 5, 8},
